@@ -89,7 +89,12 @@ c.requires(SERVER_WF, 'server-wf')
 c.requires("transport == 'polling' or transport == 'websocket'", 'transport')
 c.requires("'connect' in self.handlers and handler_accepts(self.handlers['connect'], 2)",
            'connect-handler-registered')
-c.may_raise('Exception', "transport == 'websocket'", label='websocket-driver-error')
+ARMED = ("len(spawned) > len(old(spawned)) + (1 if old(self.start_service_task) else 0) and "
+         "task_name(spawned[len(old(spawned)) + (1 if old(self.start_service_task) else 0)]) == "
+         "'_send_ping'")
+c.may_raise('Exception', "transport == 'websocket'", label='websocket-driver-error',
+            ensures=[('heartbeat-armed-at-open', ARMED)], props=['C07', 'C16'])
+c.ensures('heartbeat-armed-at-open', ARMED, props=['C07', 'C16'])
 c.ensures('id-issued', 'len(csprng) == len(old(csprng)) + 1', props=['C11', 'C17'])
 c.ensures('only-the-new-id-is-touched', 'dict_del(self.sockets, ' + NEW_SID + ') == '
           'dict_del(old(self.sockets), ' + NEW_SID + ')', props=['C11', 'C16'])
@@ -236,6 +241,19 @@ c.requires("'wsgi.input' in environ and ('CONTENT_LENGTH' not in environ or "
            "(int_ok(environ['CONTENT_LENGTH']) and int(environ['CONTENT_LENGTH']) >= 0))",
            'gateway-body')
 c.requires('len(sr_log) == 0', 'fresh-request')
+SECOND_UPGRADE = ("not origin_refused(self.cors_allowed_origins, environ) and "
+                  "refusal(self, environ) == 0 and environ['REQUEST_METHOD'] == 'GET' and "
+                  "q_sid(environ) is not None and "
+                  "is_upgrade_request(environ, ['websocket']) and "
+                  "self.sockets[q_sid(environ)].upgraded")
+c.raises('OSError', SECOND_UPGRADE, label='second-upgrade-refused-undisturbed',
+         ensures=[('established-websocket-undisturbed',
+                   "self.sockets == old(self.sockets) and events == old(events) and "
+                   "hresults == old(hresults) and received == old(received) and "
+                   "unchanged('BaseSocket.closing', 'BaseSocket.closed', 'BaseSocket.upgraded', "
+                   "'BaseSocket.upgrading', 'BaseSocket.connected', 'Queue.taken') and "
+                   "len(sr_log) == 0")],
+         props=['C06'])
 c.may_raise('Exception', 'is_websocket_request(self, environ)', label='websocket-driver-error',
             props=['C15'])
 c.ensures('origin-gate-first', "implies(origin_refused(self.cors_allowed_origins, environ), "
@@ -278,6 +296,7 @@ c.cut('if not isinstance(r, dict):', [
     ('refused-405', 'implies(' + NOT_GATED + " and old(refusal(self, environ)) == 405, "
      "r['status'] == '405 METHOD NOT FOUND' and " + NOTHING + ')'),
     ('gate-passed', NOT_GATED),
+    ('second-upgrade-never-answered', 'not old(' + SECOND_UPGRADE + ')'),
     ('non-dict-only-for-websocket', 'isinstance(r, dict) or old(is_websocket_request(self, environ))'),
     ('status-line', "implies(isinstance(r, dict), r['status'] in ('200 OK', '400 BAD REQUEST', "
      "'401 UNAUTHORIZED', '405 METHOD NOT FOUND'))"),
